@@ -82,6 +82,17 @@ def leaves(loc, N, seed, tier):
                 terms.append(mps.Hterm(-1.0, [N - 1, 0], [loc.O[a], loc.O[b]]))
         if terms:
             out.append(('H_gen', mps.generate_mpo(loc.I_mpo(N), terms)))
+        if ch:   # an MPO with non-zero total charge and a state it maps the middle sector to
+            a = ch[0]
+            st, Oc = TC.call(lambda: mps.generate_mpo(loc.I_mpo(N), [mps.Hterm(1 + 0.5 * i, [i], [loc.O[a]]) for i in range(N)]))
+            if st == 'ok':
+                out.append(('O_charged', Oc))
+            for sgn in (1, -1):
+                n2 = tuple(loc.config.sym.add_charges(mid, loc.O[a].n, signatures=(1, sgn)))
+                if n2 in [tuple(c) for c in charges] and n2 != tuple(mid):
+                    psi = MG.random_state(loc, N, n2, 2, (seed, 'mpsq', loc.fam, loc.sym, N, n2), integer=True)
+                    if psi is not None:
+                        out.append((f'psi[n={n2},D=2]', psi))
     res = []
     for name, x in out:
         st, d = TC.call(MG.dense_of, x, loc)
@@ -152,8 +163,16 @@ def measurements(states, loc, acc, case_base):
             if ca is None or cb is None or ca[1] != cb[1]:
                 continue        # bra/ket on different (dual) legs: not a defined overlap
             if ca[0] != cb[0]:
-                # different charge sectors: overlap is zero
+                # different charge sectors: overlap is zero; operators of non-zero charge may connect them
                 _num(acc, case_base, f'<{na}|{nb}> (different sectors)', lambda a=a, b=b: mps.measure_overlap(a, b), 0.0)
+                for (no, o, do) in opsl:
+                    if do.shape[0] != da.shape[0] or not _standard_layout(o) or '.T' in no or '.H' in no or 'conj' in no:
+                        continue     # boundary legs of bra, operator and ket must be compatible (yastn keeps them as legs)
+                    ref = np.vdot(da, do @ db)
+                    if abs(ref) > 1e-9:
+                        acc.cnt['charged_matrix_elements'] += 1
+                        _num(acc, case_base, f'<{na}|{no}|{nb}> (charged)', lambda a=a, o=o, b=b: mps.measure_mpo(a, o, b), ref, strict=True)
+                        _num(acc, case_base, f'vdot({na},{no},{nb}) (charged)', lambda a=a, o=o, b=b: mps.vdot(a, o, b), ref, strict=True)
                 continue
             _num(acc, case_base, f'<{na}|{nb}>', lambda a=a, b=b: mps.measure_overlap(a, b), np.vdot(da, db))
             _num(acc, case_base, f'vdot({na},{nb})', lambda a=a, b=b: mps.vdot(a, b), np.vdot(da, db))
@@ -183,11 +202,43 @@ def measurements(states, loc, acc, case_base):
                      np.trace(da.conj().T @ db @ do))
 
 
-def _num(acc, case_base, desc, thunk, ref, zero_ok_if_charged=None):
+def _standard_layout(o):
+    """the total charge of the MPO leaves through the first virtual leg (as produced by generate_mpo)"""
+    leg = o.virtual_leg('last')
+    return all(not any(t) for t in leg.t)
+
+
+def charged_layouts(states, loc, acc, case_base):
+    """operators of non-zero charge in every layout reached (charge on the first or the last virtual leg): <X b|X|b> with
+    the bra built by applying the operator, so that all boundary legs are compatible"""
+    vecs = [(n, x, d) for n, x, d in states if x.nr_phys == 1][:6]
+    opsl = [(n, x, d) for n, x, d in states if x.nr_phys == 2 and 'O_charged' in n and not any(c in n for c in '*/+@')]
+    for (no, o, do) in opsl:
+        for (nb, b, db) in vecs:
+            if do.shape[0] != db.shape[0]:
+                continue
+            st, phi = TC.call(lambda: o @ b)
+            if st != 'ok':
+                continue
+            st, dphi = TC.call(MG.dense_of, phi, loc)
+            if st != 'ok' or not close(dphi, do @ db):
+                acc.fail(dict(case_base, expr=f'({no}) @ ({nb})'), f"({no}) @ ({nb}): dense object differs from the NumPy expression")
+                continue
+            ref = np.vdot(dphi, do @ db)
+            if abs(ref) > 1e-9:
+                acc.cnt['charged_layout_elements'] += 1
+                _num(acc, case_base, f'<({no})@({nb})|{no}|{nb}>', lambda: mps.measure_mpo(phi, o, b), ref, strict=True)
+                _num(acc, case_base, f'<({no})@({nb})|({no})@({nb})>', lambda: mps.measure_overlap(phi, phi), ref, strict=True)
+
+
+def _num(acc, case_base, desc, thunk, ref, zero_ok_if_charged=None, strict=False):
     st, v = TC.call(thunk)
     acc.transitions += 1
     acc.ev(None, False, ('measure', st))
     acc.cnt['measurements'] += 1
+    if st == 'yerr' and strict:
+        acc.fail(dict(case_base, measure=desc), f"{desc} rejected ({v}) although the dense matrix element is {ref}")
+        return
     if st == 'yerr':
         acc.cnt['measure_rejected'] += 1
         return
@@ -250,6 +301,7 @@ def run_group(g, acc):
         states += new
     meas_states = states[: (14 if acc.tier == 'quick' else 24)]
     measurements(meas_states, loc, acc, case_base)
+    charged_layouts(states, loc, acc, case_base)
     zipper_compression(loc, N, states, acc, case_base)
     pbc(loc, N, states, acc, case_base)
     rejections(loc, N, states, acc, case_base)
